@@ -18,7 +18,8 @@ CHECKS = {
          'px, measured constant <= 1.0), reported rmse = residual through the corrected WCS on noisy data, '
          'fit_RA/fit_DEC = corrected positions.',
          'PARTIAL: the FITS second-order reprojection bound is measured, not proved; external transforms (wcslib, '
-         'gwcs) enter as Section hypotheses. Rounding outside the theorems.',
+         'gwcs) enter as Section hypotheses. Rounding outside the theorems. Known finding K6 (clipping of '
+         'rounding-level residuals down to two sources loses the handedness of a reflected true map).',
          'DESIGN.md section 6 (corrector algebra)'),
  'C02': ('Coq proof (gWCS pipeline state machine: requested affine applied exactly in every reachable state, own and '
          'reference plane; _tp2tp exact on affine maps; FITS exact at the reference pixel for every projection with '
